@@ -242,6 +242,7 @@ let check_derivation (x : qobs) input (e : expr) =
   chk "< >" (count_tok TGreater + count_tok TLess) cmps;
   if df = "" then
     chk ": =" (count_tok TColon + count_tok TEqual) (opn Equals + opn Like + opn In + opn Range + cmps + opn GreaterEq + opn LessEq);
+  if not (wf true e) then fail "C06" "not-a-derivation:field-position-or-range-bound-is-not-a-term-or-a-node-has-the-wrong-arity" input [("tree", show_expr e)];
   if count_tok TErr > 0 then fail "C06" "text-with-a-lexical-error-accepted-as-a-query" input [("tokens", x.o.(0)); ("tree", show_expr e)];
   (* explicit AND tokens are a lower bound for AND nodes (juxtaposition adds more) *)
   if count_tok TAnd > opn And then fail "C06" "operator-tokens-vs-nodes:AND" input [("tree", show_expr e)]
@@ -536,7 +537,15 @@ let check_pair rel (a : qobs) (b : qobs) =
       checked "C09";
       if tree_of_parse pa <> None then begin
         nontrivial "C09";
-        if pa <> pb then fail "C09" "redundant-parentheses-change-the-result" input [("original", pa); ("variant", pb)]
+        (* K15: a term juxtaposed directly behind a closing parenthesis is rejected *)
+        let rparen = typnum TRParen and lparen = typnum TLParen in
+        let is_ty ty s = starts_with s (string_of_int ty ^ ":") in
+        let is_term s = List.exists (fun ty -> is_ty (typnum ty) s) [TLiteral; TQuoted; TRegexp] in
+        let rec paren_then_term l = match l with
+          | a :: (b :: _ as rest) -> (is_ty rparen a && is_term b) || ((is_term a || is_ty rparen a) && is_ty lparen b) || paren_then_term rest
+          | _ -> false in
+        let cls = if pb = "nil|1" && paren_then_term (String.split_on_char ' ' b.o.(0)) then [("class", "K15")] else [] in
+        if pa <> pb then fail "C09" "redundant-parentheses-change-the-result" input ([("original", pa); ("variant", pb)] @ cls)
       end
   | "C11" ->
       checked "C11";
